@@ -42,6 +42,10 @@ pub enum EngineInput {
     Session(crate::checks::c07::Content),
     ThreadPost(crate::checks::c07::Content),
     Task(String),
+    /// fault: from here on the artifact store is unwritable (its directory is replaced by a file), so
+    /// the context of a provider-answered thread run cannot be compiled and the run ends on that
+    /// error path
+    BlockArtifacts,
 }
 
 fn generate_engine(run_seed: u64) -> Scenario {
@@ -68,6 +72,14 @@ fn generate_engine(run_seed: u64) -> Scenario {
             2 | 3 => EngineInput::ThreadPost(content(&mut rng, u)),
             _ => EngineInput::Task(format!("echo task{u}; echo e{u} 1>&2; exit {}", rng.below(3))),
         });
+    }
+    // own sub-stream: 1 in 3 engine scenarios lose the artifact store at some point and post a
+    // prompt to the thread after that
+    let mut f = Rng::derive(run_seed, "c03-engine:artifact-store");
+    if f.chance(1, 3) {
+        let at = f.usize_below(inputs.len() + 1);
+        inputs.insert(at, EngineInput::BlockArtifacts);
+        inputs.push(EngineInput::ThreadPost(Content::Prompt("a question asked after the artifact store was lost".into())));
     }
     Scenario::Engine { cfg, script, inputs }
 }
@@ -114,6 +126,10 @@ fn engine_run(cfg: &crate::esim::ProviderCfg, script: &[crate::esim::Resp], inpu
                     let sub = crate::checks::c06::spawn_sub(&engine, &format!("/sessions/{sid}/events"), crate::checks::c06::When::BeforeStart);
                     run_sessions.push(sid.clone());
                     streams.push((sid.clone(), "session", format!("snapshots/{sid}.json"), sub));
+                }
+                EngineInput::BlockArtifacts => {
+                    crate::checks::c07::block_artifacts(&engine.ws);
+                    stats.bump("fault:artifact_store_unwritable", 1);
                 }
                 EngineInput::Task(cmd) => {
                     let (st, v) = engine.call_json("POST", "/tasks", Some(json!({"tool": "bash", "args": {"command": cmd}})))?;
